@@ -1,8 +1,9 @@
 SPECIFICATION Spec
 CONSTANTS
   Keys = {"a","b","c"}
-  NVals = 3
-  InputClasses = {"distinct", "single"}
+  NVals = 4
+  InputClasses = {"distinct", "single", "falsy"}
 INVARIANT Exposes
 INVARIANT Faithful
+INVARIANT SweepExposes
 CHECK_DEADLOCK FALSE
